@@ -1,6 +1,7 @@
+use std::fmt;
 use std::io::{self, Read};
 
-use encoding_rs_io::{DecodeReaderBytes, DecodeReaderBytesBuilder};
+use encoding_rs::{CoderResult, Decoder};
 
 use crate::charsets::Charset;
 
@@ -9,9 +10,17 @@ use crate::charsets::Charset;
 /// It can be used to convert a stream of text in a specific charset into a stream
 /// of UTF-8 encoded bytes. The `Read::read_to_string` method can be used to convert
 /// the stream of UTF-8 bytes into a `String`.
-#[derive(Debug)]
 pub struct TextReader<R> {
-    inner: DecodeReaderBytes<StartReplay<R>, Vec<u8>>,
+    inner: R,
+    decoder: Decoder,
+    // Bytes read from `inner` that have not been decoded yet.
+    input: Box<[u8]>,
+    input_pos: usize,
+    input_len: usize,
+    // `inner` has reported the end of the stream.
+    eof: bool,
+    // The decoder has been told about the end of the stream and has written everything out.
+    finished: bool,
     // Decoded bytes waiting for a caller that reads with small buffers.
     pending: [u8; 64],
     pending_pos: usize,
@@ -25,13 +34,29 @@ where
     /// Create a new `TextReader` with the given charset.
     pub fn new(inner: R, charset: Charset) -> Self {
         Self {
-            inner: DecodeReaderBytesBuilder::new()
-                .encoding(Some(charset))
-                .build(StartReplay::new(inner)),
+            inner,
+            decoder: charset.new_decoder_with_bom_removal(),
+            input: vec![0; 8 * 1024].into_boxed_slice(),
+            input_pos: 0,
+            input_len: 0,
+            eof: false,
+            finished: false,
             pending: [0; 64],
             pending_pos: 0,
             pending_len: 0,
         }
+    }
+}
+
+impl<R> fmt::Debug for TextReader<R>
+where
+    R: fmt::Debug,
+{
+    fn fmt(&self, f: &mut fmt::Formatter<'_>) -> fmt::Result {
+        f.debug_struct("TextReader")
+            .field("inner", &self.inner)
+            .field("charset", &self.decoder.encoding())
+            .finish()
     }
 }
 
@@ -40,79 +65,50 @@ where
     R: Read,
 {
     fn read(&mut self, buf: &mut [u8]) -> io::Result<usize> {
-        if self.pending_pos == self.pending_len {
-            if buf.is_empty() || buf.len() >= self.pending.len() {
-                return self.inner.read(buf);
+        if buf.is_empty() {
+            return Ok(0);
+        }
+
+        loop {
+            if self.pending_pos < self.pending_len {
+                let n = buf.len().min(self.pending_len - self.pending_pos);
+                buf[..n].copy_from_slice(&self.pending[self.pending_pos..self.pending_pos + n]);
+                self.pending_pos += n;
+                return Ok(n);
             }
 
-            // At the end of the stream the decoder writes whatever it still holds (replacement
-            // characters for an incomplete sequence, bytes it had set aside) into the buffer it is
-            // handed and drops what does not fit, so always give it ample room.
-            self.pending_len = self.inner.read(&mut self.pending)?;
-            self.pending_pos = 0;
-        }
-
-        let n = buf.len().min(self.pending_len - self.pending_pos);
-        buf[..n].copy_from_slice(&self.pending[self.pending_pos..self.pending_pos + n]);
-        self.pending_pos += n;
-        Ok(n)
-    }
-}
-
-/// `DecodeReaderBytes` reads the first three bytes of the stream ahead (it looks for a byte order
-/// mark) and forgets the ones it already has when the underlying reader fails before all three
-/// have arrived, with a timeout for instance. This adapter hands them out again, so that the
-/// caller can retry the read without losing the start of the text.
-#[derive(Debug)]
-struct StartReplay<R> {
-    inner: R,
-    start: [u8; 3],
-    // Bytes of the start of the stream seen so far; 3 once the read-ahead cannot fail any more.
-    seen: usize,
-    replay_pos: usize,
-    replay_len: usize,
-}
-
-impl<R> StartReplay<R> {
-    fn new(inner: R) -> Self {
-        Self {
-            inner,
-            start: [0; 3],
-            seen: 0,
-            replay_pos: 0,
-            replay_len: 0,
-        }
-    }
-}
-
-impl<R> Read for StartReplay<R>
-where
-    R: Read,
-{
-    fn read(&mut self, buf: &mut [u8]) -> io::Result<usize> {
-        if self.replay_pos < self.replay_len {
-            let n = buf.len().min(self.replay_len - self.replay_pos);
-            buf[..n].copy_from_slice(&self.start[self.replay_pos..self.replay_pos + n]);
-            self.replay_pos += n;
-            return Ok(n);
-        }
-
-        match self.inner.read(buf) {
-            Ok(n) => {
-                if self.seen < 3 {
-                    let k = n.min(3 - self.seen);
-                    self.start[self.seen..self.seen + k].copy_from_slice(&buf[..k]);
-                    self.seen += k;
-                }
-                Ok(n)
+            if self.finished {
+                return Ok(0);
             }
-            Err(err) => {
-                if self.seen < 3 && err.kind() != io::ErrorKind::Interrupted {
-                    // The read-ahead is given up after the first failure, later reads are passed through.
-                    self.replay_len = self.seen;
-                    self.seen = 3;
-                }
-                Err(err)
+
+            // Only go back to the underlying reader when everything that has arrived is decoded,
+            // so that text is handed out as soon as it is there.
+            if self.input_pos == self.input_len && !self.eof {
+                let n = self.inner.read(&mut self.input)?;
+                self.input_pos = 0;
+                self.input_len = n;
+                self.eof = n == 0;
+            }
+
+            // The decoder needs room for at least one character to make progress, small reads
+            // are served from `pending`.
+            let direct = buf.len() >= 16;
+            let (result, nread, nwritten, _) = self.decoder.decode_to_utf8(
+                &self.input[self.input_pos..self.input_len],
+                if direct { &mut buf[..] } else { &mut self.pending[..] },
+                self.eof,
+            );
+            self.input_pos += nread;
+
+            if self.eof && result == CoderResult::InputEmpty {
+                self.finished = true;
+            }
+
+            if !direct {
+                self.pending_pos = 0;
+                self.pending_len = nwritten;
+            } else if nwritten > 0 {
+                return Ok(nwritten);
             }
         }
     }
